@@ -7,8 +7,10 @@ import RisorModel.C18.Model
   history  := piece ("|" piece)*            piece := "X" (parse error) | stmt (";" stmt)*
   stmt     := id:flags:need:leak:pre:uses:asg:vdecl:cdecl:fdefs:calls
   flags    := subset of "elfnj" (isExpr, leaves, fails, inFn, junk) or "-";  lists := n.n.n or "-"
+              (need, pre, inFn, junk describe the piece for the historical `PreFix` machine; the Impl machine does not read them)
   outcomes := per piece `ok:<value id>` | `parse` | `compile` | `fail`
-  registers:= per piece `<stack height>:<ip at end of code 1/0>:<code grew 1/0>:<compiler stuck 1/0>`
+  registers:= per piece `<stack height>:<ip at end of code 1/0>:<code grew 1/0>:0` (the last field was "compiler stuck"
+              before the repair of C18-compiler-stuck-in-function; kept so that the wire format is unchanged)
   trace    := per piece the statements executed by that piece's run, `id` or `id~` (stale globals view)
 `histh <host names> <history>` → the same answer with the listed names (n.n.n or "-") defined as
   host-supplied variables before the first piece (`Repl.init`, `SpecSt.init`, `guardHost`)
@@ -62,7 +64,7 @@ def implLog : Repl → List Piece → List (String × String × String)
   | r, p :: ps =>
     let (r1, o) := r.feed p
     let reg := toString r1.vm.stack.length ++ ":" ++ b01 (r1.vm.ip == r1.comp.code.length) ++ ":" ++
-      b01 (r1.comp.code.length > r.comp.code.length) ++ ":" ++ b01 r1.comp.stuck
+      b01 (r1.comp.code.length > r.comp.code.length) ++ ":0"
     (showOutcome o, reg, showTrace (r1.vm.trace.drop r.vm.trace.length)) :: implLog r1 ps
 
 def specLog : SpecSt → List Piece → List (String × String)
@@ -86,7 +88,7 @@ def answerHist (host : List Nat) (ps : List Piece) : String :=
 /-! ### layer 3: `marks <history>`
   history := piece ("|" piece)*   piece := "-" | ev ("," ev)*
   ev := "+" m (enter) | "-" … no: "<" (leave) | "e" k ":" letters-or-"-" (emit) | "!" (err);  m := p l b s f
-  answer: `ok <impl> <spec> <guard 0/1>`, per piece `a|r : marks left set (letters or -) : code`, code := k or k~letters, "." separated -/
+  answer: `ok <impl> <spec> <bracketed 0/1>`, per piece `a|r : marks left set (letters or -) : code`, code := k or k~letters, "." separated -/
 
 def markOf : Char → Option Mark
   | 'p' => some .pipe | 'l' => some .loop | 'b' => some .block | 's' => some .switchVal | 'f' => some .fn | _ => none
@@ -236,7 +238,7 @@ def implLogC : HRepl → List (Ctx × Piece) → List (String × String × Strin
     let r := h.r
     let r1 := h1.r
     let reg := toString r1.vm.stack.length ++ ":" ++ b01 (r1.vm.ip == r1.comp.code.length) ++ ":" ++
-      b01 (r1.comp.code.length > r.comp.code.length) ++ ":" ++ b01 r1.comp.stuck
+      b01 (r1.comp.code.length > r.comp.code.length) ++ ":0"
     (showOutcome o, reg, showTrace (r1.vm.trace.drop r.vm.trace.length), b01 h1.halt) :: implLogC h1 ps
 
 def answerHistC (host : List Nat) (cs : List Ctx) (ps : List Piece) : String :=
@@ -378,7 +380,7 @@ def handle : List String → String
     match (h.splitOn "|").mapM parseEvs with
     | none => "error\tbad-events"
     | some ps =>
-      "\t".intercalate ["ok", bar (marksLog [] ps), bar ((marksSpec ps).map (showMOut [])), b01 (marksGuard ps)]
+      "\t".intercalate ["ok", bar (marksLog [] ps), bar ((marksSpec ps).map (showMOut [])), b01 (marksWf ps)]
   | ["bind", ng, h] =>
     match ng.toNat?, parseBindHist h with
     | some ng, some ps =>
